@@ -339,6 +339,14 @@ class SimWorker:
         status.update({'state': outcome, 'end_time': job.end_time,
                        'status': {'state': outcome, 'worker': self.name, 'container_statuses': {},
                                   'start_time': job.start_time, 'end_time': job.end_time}})
+        # mark_complete: the report is posted by an independent task that a later delete does NOT cancel
+        # (worker.py: Job.mark_complete -> task_manager.ensure_future(post_job_complete) if not deleted)
+        if job.deleted:
+            return
+        self._spawn(self.post_job_complete(job, mjs, status, url_complete))
+
+    async def post_job_complete(self, job, mjs, status, url_complete):
+        s = self.s
         try:
             await mjs
         except asyncio.CancelledError:
